@@ -158,7 +158,11 @@ CLAIMED = {
         "carries C12_stdio_success_complete (success => the file holds the whole text, nothing dropped), "
         "C12_stdio_success_iff (success iff no write call failed, the requested fsync and the close succeeded), "
         "C12_stdio_no_fail (partial writes lose nothing) and C12_stdio_variants_refuted (trusting fflush, skipping the "
-        "ferror check under FSYNC, or trusting fclose alone reports success for a file that lost bytes). Tied to /repo by fault "
+        "ferror check under FSYNC, or trusting fclose alone reports success for a file that lost bytes). The two models are "
+        "one (StdioCap.v): with a state-dependent oracle for the write calls, the capacity device is the oracle that "
+        "writes what fits and then fails, and write_file - the model the extracted driver runs against the real "
+        "function - equals that instance in result and file content for every buffer size and split "
+        "(C12_capacity_device_is_stdio_instance, C12_stdio_oracle_success_complete, C12_capacity_closed_form). Tied to /repo by fault "
         "enumeration on the real function: RLIMIT_FSIZE at boundary sizes, fsync/fclose/fopen forced to fail "
         "(--wrap), missing directory, fsync option off/on, read-back of the written file; and by ONE transient write "
         "failure on the real function (harness op writeft: the file size limit fails one write of stdio's, SIGXFSZ "
